@@ -53,7 +53,8 @@ type RuleStat struct {
 
 // Ctx is the loaded program plus the obligation log.
 type Ctx struct {
-	parseDegreeFolded  bool                                     // note.ParseDegree was decided on its spelling domain (rules_wire.go)
+	parseDegreeFolded  bool // note.ParseDegree was decided on its spelling domain (rules_wire.go)
+	addDegreeFolded    bool
 	degreeSearchFolded bool                                     // op.ScaleNote.GetDegree was decided on its whole domain (rules_wire.go)
 	globalRaw          map[*ssa.Global]Val                      // consteval values of immutable globals (fold.go)
 	callersOf          map[*ssa.Function]map[*ssa.Function]bool // static callers (rules_c09.go ownerName)
@@ -313,6 +314,31 @@ func (c *Ctx) fnBySignature(pkgrel, name string) *ssa.Function {
 			if named, ok := x.Type().(*types.Named); ok {
 				for i := 0; i < named.NumMethods(); i++ {
 					consider(c.Prog.FuncValue(named.Method(i)))
+				}
+			}
+		}
+	}
+	if len(cands) == 0 {
+		// a method that lost or changed its receiver (a receiver-less method made a plain function): same parameters
+		// and results, whatever it hangs on
+		tail := want[strings.Index(want, "("):]
+		relaxed := func(f *ssa.Function) {
+			if f == nil || len(f.Blocks) == 0 || f.Synthetic != "" || taken[f] || f.Object() == nil || f.Object().Exported() {
+				return
+			}
+			if k := sigKey(f); k[strings.Index(k, "("):] == tail {
+				cands = append(cands, f)
+			}
+		}
+		for _, m := range sp.Members {
+			switch x := m.(type) {
+			case *ssa.Function:
+				relaxed(x)
+			case *ssa.Type:
+				if named, ok := x.Type().(*types.Named); ok {
+					for i := 0; i < named.NumMethods(); i++ {
+						relaxed(c.Prog.FuncValue(named.Method(i)))
+					}
 				}
 			}
 		}
